@@ -57,6 +57,12 @@ func topicInit(t *Topic, join *ClientComMessage, h *Hub) {
 		err = types.ErrTopicNotFound
 	}
 
+	if err == nil && t.isDeleted() {
+		// Someone deleted the topic (or the user who owns it) while it was being loaded. Treat it as a failure
+		// to load, otherwise the initiator is never answered and the queued requests are never released.
+		err = types.ErrTopicNotFound
+	}
+
 	// Failed to create or load the topic.
 	if err != nil {
 		// Remove topic from cache to prevent hub from forwarding more messages to it.
